@@ -25,7 +25,7 @@ def tree_state(top, exclude):
             elif stat.S_ISDIR(st.st_mode):
                 out[p] = ("d",)
             elif stat.S_ISREG(st.st_mode):
-                out[p] = ("f", hashlib.sha256(open(p, "rb").read()).hexdigest())
+                out[p] = ("f", hashlib.sha256(open(p, "rb").read()).hexdigest(), stat.S_IMODE(st.st_mode))
             else:
                 out[p] = ("o",)
     return out
@@ -199,6 +199,58 @@ def hostile_manifests(sb, R, rng, tier):
     return viol
 
 
+def hostile_checksums(sb, R, rng, tier):
+    """a recorded CHECKSUM that is not a digest but a path: `<cache>/<first two characters>/<rest>` must not be allowed to name a file
+    outside the cache — in a stage file (output, input) and in a manifest entry; every command, both strategies"""
+    viol = []
+    # relative to <project>/.dud/cache: "../" + "../../proj-sibling/victim.txt" -> <outer>/proj-sibling/victim.txt
+    hostile = ["../../../proj-sibling/victim.txt", "../../../outer_sentinel.txt", "..//../../../proj-sibling/victim.txt",
+               "ab/../../../../proj-sibling/victim.txt", "../../../proj-sibling/new-file.txt"]
+    for cs in hostile:
+        for where in ("output", "dir-output", "input", "manifest-entry"):
+            proj = sb.project()
+            root = proj.root
+            open(os.path.join(root, "ok.txt"), "w").write("ok")
+            if where == "output":
+                doc = "outputs:\n  data.bin:\n    checksum: %s\n" % json.dumps(cs)
+            elif where == "dir-output":
+                doc = "outputs:\n  data:\n    checksum: %s\n    is-dir: true\n" % json.dumps(cs)
+            elif where == "input":
+                doc = "command: echo hi\ninputs:\n  in.bin:\n    checksum: %s\noutputs:\n  ok.txt: {}\n" % json.dumps(cs)
+            else:
+                man = b'{"path":"data","contents":{"x.bin":{"checksum":' + gojson_str(cs.encode()) + b',"path":"x.bin"}}}\n'
+                dm = sb.b3.data(man, proj.base)
+                pth = proj.obj_path(dm)
+                os.makedirs(os.path.dirname(pth), exist_ok=True)
+                open(pth, "wb").write(man)
+                os.chmod(pth, 0o444)
+                doc = "outputs:\n  data:\n    checksum: %s\n    is-dir: true\n" % dm
+            open(os.path.join(root, "s.yaml"), "w").write(doc)
+            open(os.path.join(root, ".dud", "index"), "w").write("s.yaml\n")
+            # the remote may be as hostile as the repository: it holds a file at the place the "checksum" names, relative to ITS root
+            planted = os.path.normpath(os.path.join(proj.remote_dir, cs[:2], cs[2:].lstrip("/")))
+            planted_new = False
+            if cs.endswith("new-file.txt") and not os.path.lexists(planted):
+                os.makedirs(os.path.dirname(planted), exist_ok=True)
+                open(planted, "w").write("from a hostile remote")
+                planted_new = True
+            before = sb.outside(proj)
+            rcs = []
+            for cmd in (["status"], ["checkout"], ["checkout", "--copy"], ["push"], ["fetch"], ["pull"], ["run"], ["commit"], ["commit", "--copy"]):
+                rc, so, se = proj.dud(cmd, cwd=root)
+                rcs.append((" ".join(cmd), rc))
+            after = sb.outside(proj)
+            if planted_new and os.path.lexists(planted):
+                os.unlink(planted)
+            R.count("checksum-%s-%s" % (where, cs), True)
+            if after != before:
+                ch = sorted(p for p in set(after) | set(before) if after.get(p) != before.get(p))
+                viol.append(("checksum-escape", "recorded checksum %r (%s): entries outside project, cache and config changed: %s (exit codes %s)" % (
+                    cs, where, [(os.path.relpath(p, os.path.dirname(root)), before.get(p), after.get(p)) for p in ch[:3]], rcs)))
+            proj.cleanup()
+    return viol
+
+
 def symlinked_places(sb, R, rng, tier):
     """where a committed directory (the artifact itself, or a sub-directory of it) belongs, the workspace holds a symbolic link to an
     existing directory OUTSIDE the project: checkout must not write through it"""
@@ -268,7 +320,7 @@ def main(tier, replay=None):
     sb = Sandbox(dud, drv)
     findings = [f for f in vlib.load_findings() if f.get("property") == PROP]
     try:
-        viol = hostile_stage_files(sb, R, rng, tier) + hostile_manifests(sb, R, rng, tier) + symlinked_places(sb, R, rng, tier) + traced(sb, R, stepper, rng, tier)
+        viol = hostile_stage_files(sb, R, rng, tier) + hostile_manifests(sb, R, rng, tier) + hostile_checksums(sb, R, rng, tier) + symlinked_places(sb, R, rng, tier) + traced(sb, R, stepper, rng, tier)
     finally:
         sb.close()
     unknown = []
